@@ -189,7 +189,11 @@ def backup (s : St) (dest : String) : St × Res :=
     -- the copy holds exactly the source's data files and hint file: what an earlier backup left in `dest` and the
     -- source no longer has is removed first (`removeStaleBackupFiles`), everything else is overwritten by `CopyDir`
     let data := d.data.map (fun (x : Nat × FileSt) => (x.1, { x.2 with synced := x.2.bytes.size }))
-    ({ s with world := s.world.set dest { old with data := data, hint := d.hint } }, .ok)
+    -- a merge directory left next to `dest` by a database that used to live there is removed (`removeStaleMergeDir`):
+    -- opening the copy must not adopt it
+    -- (unless the data directory itself carries that name)
+    let w := if mergeDirName dest = db.dir then s.world else s.world.remove (mergeDirName dest)
+    ({ s with world := w.set dest { old with data := data, hint := d.hint } }, .ok)
 
 /-! ## database-level iterator (abstract cursor over the sorted snapshot; the per-shard machinery
     is `Model/ShardIter.lean`) -/
